@@ -2,7 +2,7 @@
 from vf.ch import Ob
 
 KINDS = ["add_column", "drop_column", "rename_column", "modify_column", "add_pk", "add_unique_1", "add_unique_2", "add_check",
-         "add_default_for", "add_fk_2", "create_index", "drop_first", "rename_first", "modify_first", "modify_last"]
+         "add_default_for", "add_fk_2", "create_index", "drop_first", "rename_first", "modify_first", "modify_last", "rename_case"]
 FN = ["simple_ddl_parser/output/core.py:Output.format, process_statement_data, process_alter_and_index_result, add_alter_to_table, add_index_to_table, "
       "clean_up_index_statement, get_table_from_tables_data", "simple_ddl_parser/utils.py:get_table_id, normalize_name",
       "simple_ddl_parser/output/base_data.py:append_statement_information_to_table, prepare_alter_columns, create_alter_column_references, alter_drop_columns, "
@@ -20,9 +20,13 @@ def obligations(tier):
     n = 3 if tier == "quick" else 4
     obs = [Ob(f"C04.route/{k}", "c04", "c_route", {"VF_KIND": i, "VF_NSP": n, "VF_NSC": n}, t, FN,
               f"target table spelled with one of {n} name spellings x {n} schema spellings, statement addressed with an independent pair (all symbolic); "
-              "other table = same name in another schema / other name / near name t$; table order symbolic")
+              "other table = same name in another schema / other name / near name t$ / a quoted name spelling \"schema.t\"; table order symbolic")
            for i, k in enumerate(KINDS)]
     obs.append(Ob("C04.seq/3_alters", "c04", "c_seq", {}, t, FN, "three ALTER statements, each any of 7 kinds (symbolic): add / rename / drop / foreign key, on one table"))
+    obs.append(Ob("C04.order/redefinition", "c04", "c_redefine", {}, t, FN,
+                  "CREATE TABLE t; [CREATE INDEX on t]; [ALTER TABLE t ADD]; then t defined again (DROP + CREATE / CREATE / CREATE IF NOT EXISTS): the statements stay with the earlier table"))
+    obs.append(Ob("C04.effect/drop-exact-name", "c04", "c_drop_exact", {}, t, FN,
+                  "two DROP COLUMN statements among columns whose names contain one another (id, customer_id, cust, order_id): exactly the named ones go; primary_key unchanged"))
     obs.append(Ob("C04.norun/cross_run", "c04", "c_no_cross_run", {"VF_KIND": 0, "VF_NSP": n}, t, FN,
                   "two consecutive Output.format runs: an ALTER in the second run must not find the table of the first"))
     return obs
